@@ -22,6 +22,8 @@ func init() {
 	reg("C02", "C02.R5", "E2", "hold<->propagate typestate of every action returning ActionHold", 1, ruleHoldPropagate)
 	reg("C02", "C02.R6", "E1", "single commit sequencer (same rule as C01.R8)", 1, ruleSingleSequencer)
 	reg("C02", "C02.R8", "E2", "Propagate clears the holding action's busy mark before the flushed event re-enters the action chain", 1, rulePropagateResetsBusy)
+	reg("C02", "C02.R9", "E2+E3", "stream.commit: compare-and-advance of commitSeq is one critical section (same rule as C01.R9)", 1, ruleStreamCommit)
+	reg("C02", "C02.R10", "E2", "events of a stream cannot overtake an event held by a busy action: a busy action is not match-filtered (same rule as C15.R4)", 1, ruleBusyNotFiltered)
 	reg("C02", "C02.R7", "E2+E3", "stream.put appends at the tail under the lock and numbers events by +1", 1, ruleStreamPutFIFO)
 }
 
